@@ -659,7 +659,7 @@ func runFrame(fr *frame) {
 // site describes the current source position of the innermost target frame.
 func (fr *frame) site() string {
 	for f := fr; f != nil; f = f.caller {
-		if f.fn != nil && f.fn.Pkg != nil && f.i.ld.target[f.fn.Pkg] && !f.i.ld.harnessFns[f.fn] {
+		if f.fn != nil && f.fn.Pkg != nil && f.i.ld.target[f.fn.Pkg] && !f.i.ld.isHarnessFn(f.fn) {
 			return f.fn.String()
 		}
 	}
